@@ -69,6 +69,7 @@ Print Assumptions C08_ground_plane_impermeable.
 
 (* translator tie: the unit contract (declared units of every input and output of every class), regenerated from /repo on
    every run, is the reviewed one; a dropped or changed `units=` breaks this obligation *)
+From Coq Require Import List String.
 From OAS Require Import IOUnits IOUnitsReviewed IOUnitsProofs.
 Theorem C08_unit_contract_is_the_reviewed_one : gen_io_units = reviewed_io_units.
 Proof. exact io_units_reviewed. Qed.
